@@ -1,6 +1,150 @@
-"""Checks of the input-quantified properties (filled in incrementally)."""
-CHECKS = {}
+"""Checks of the input-quantified properties. Pattern: a TLA+ satellite module is
+the reference semantics of the input family; TLC enumerates the family with the
+expected verdicts (mode gen); the harness concretises every case on the real
+library; TLC judges the observed records against the module (mode check)."""
+import json
+import os
+import time
+
+from common import (SPEC, VERIF, ToolError, build_harness, classify, log, run_harness, seed, tlc, workdir,
+                    write_evidence)
+
+ASSUMPTIONS = [
+    "cryptography is symbolic in the specification (ideal hashes, MAC, AEAD, KEM)",
+    "TLC 1.8 and the CommunityModules Json/IOUtils overrides are trusted",
+    "the TLA+ module decides the expected verdict of every abstract case; the per-byte / per-spacing expansion of a case is done by the harness",
+]
+
+
+def tagged(out, tag):
+    """JSON payloads of TLC PrintT lines <<"TAG", "json">>."""
+    res = []
+    pre = f'<<"{tag}", '
+    for line in out.splitlines():
+        if line.startswith(pre):
+            body = line[len(pre):line.rindex(">>")].strip()
+            try:
+                res.append(json.loads(json.loads(body)) if body.startswith('"') else json.loads(body))
+            except json.JSONDecodeError:
+                res.append(body)
+    return res
+
+
+def write_cfg(path, consts, extra=""):
+    with open(path, "w") as f:
+        f.write("INIT Init\nNEXT Next\nCONSTANTS\n")
+        for k, v in consts.items():
+            f.write(f"  {k} = {v}\n")
+        f.write("CHECK_DEADLOCK FALSE\n" + extra)
+
+
+def run_module(module, cfg, wd, mode, trace=None, timeout=900, env=None):
+    e = {"MODE": mode}
+    if trace:
+        e["TRACE"] = trace
+    e.update(env or {})
+    r = tlc(os.path.join(SPEC, module), cfg, wd, env_extra=e, workers=1, timeout=timeout, xmx="6g")
+    if r["timeout"] or ("Error:" in r["out"] and "is violated" not in r["out"]):
+        raise ToolError(f"TLC failed on {module} ({mode}):\n" + "\n".join(r["out"].splitlines()[-25:]))
+    return r
+
+
+def finish(prop, tier, t0, viols, coverage, replay_writer=None):
+    """Classification, output lines, evidence. viols: list of dict(what, cause, detail)."""
+    known, new = classify(prop, viols)
+    seen = set()
+    for v, f in known:
+        key = (f["id"], v["what"])
+        if key not in seen:
+            seen.add(key)
+            print(f"KNOWN-FINDING: property={prop} {f['what']} [{f['id']}: {v['what']}]")
+    rc = 0
+    wd = os.path.join(VERIF, "work", prop)
+    for i, (v, _) in enumerate(new[:5]):
+        path = os.path.join(wd, f"violation_{i}.json")
+        with open(path, "w") as f:
+            json.dump(v, f, indent=1, default=str)
+        print(f"VIOLATION property={prop} replay={path}")
+        log(f"  {v['what']}: {json.dumps(v.get('detail'), default=str)[:500]}")
+        rc = 1
+    coverage.setdefault("exhaustive", False)
+    coverage["known_finding_instances"] = len(known)
+    coverage["new_violation_instances"] = len(new)
+    write_evidence(prop, tier, "model_checking", coverage, time.time() - t0, len(new), ASSUMPTIONS)
+    log(f"[{prop}] evaluations={coverage.get('evaluations')} nontrivial={coverage.get('distinct_nontrivial')} "
+        f"known={len(known)} new={len(new)} {time.time()-t0:.0f}s")
+    return rc
+
+
+# ------------------------------------------------------------------ C15
+
+def c15(tier):
+    t0 = time.time()
+    prop = "C15"
+    wd = workdir(prop)
+    build_harness("default")
+    cfg = os.path.join(wd, "PolicyGrammar.cfg")
+    write_cfg(cfg, {"NAttr": 3, "MaxLeaves": 4 if tier == "quick" else 5})
+    g = run_module("PolicyGrammar.tla", cfg, wd, "gen")
+    cases = tagged(g["out"], "CASE")
+    alphabet = tagged(g["out"], "ALPHABET")
+    cases_path = os.path.join(wd, "cases.ndjson")
+    with open(cases_path, "w") as f:
+        f.write(json.dumps({"alphabet": alphabet[0]}) + "\n")
+        for c in cases:
+            f.write(json.dumps(c) + "\n")
+    obs = os.path.join(wd, "observed.ndjson")
+    maxlen = 5 if tier == "quick" else 6
+    run_harness(["policy", "--cases", cases_path, "--out", obs, "--seed", str(seed()), "--maxlen", str(maxlen)],
+                timeout=3000)
+    c = run_module("PolicyGrammar.tla", cfg, wd, "check", trace=obs, timeout=3000)
+    done = tagged(c["out"], "CHECK-DONE")
+    if not done and "CHECK-DONE" not in c["out"]:
+        raise ToolError("PolicyGrammar check did not finish:\n" + c["out"][-3000:])
+    viols = []
+    for line in c["out"].splitlines():
+        if line.startswith('<<"VIOL"'):
+            body = line[line.index(",") + 1:line.rindex(">>")].strip()
+            idx, js = body.split(",", 1)
+            rec = json.loads(json.loads(js.strip()))
+            what = ("parser panicked / did not return on a string of the totality domain"
+                    if rec.get("kind") == "totality" else
+                    "parsed policy is not equivalent to the formula (or a name was altered / the string was rejected)")
+            viols.append({"what": what, "cause": rec.get("parsed", "panic"), "detail": rec})
+    with open(obs) as f:
+        recs = [json.loads(l) for l in f]
+    formulas = [r for r in recs if r["kind"] == "formula"]
+    total = sum(r["total"] for r in recs if r["kind"] == "totality")
+    nontrivial = len({json.dumps(r["ast"], sort_keys=True) for r in formulas
+                      if 0 < len(r["obs_table"]) < 8 and r["ast"].get("t") != "leaf"})
+    cov = {
+        "evaluations": len(formulas) + total,
+        "distinct_nontrivial": nontrivial,
+        "rule": "formula cases: every AST with <= MaxLeaves leaves over 3 attributes x 4 printings (minimal, fully parenthesised, "
+                "outer parentheses, redundant parentheses) x 2 concretisations (names incl. multi-byte and inner spaces, spacing); "
+                "non-trivial = distinct non-leaf formula whose truth table is neither empty nor full. "
+                f"Totality: every string of <= {maxlen} symbols over the 12-symbol alphabet of the module.",
+        "samples": [{"src": r["src"], "table": r["obs_table"]} for r in formulas[5000:5003]] or [formulas[0]],
+        "formula_cases": len(formulas), "totality_strings": total, "tlc_cases_generated": len(cases),
+        "exhaustive": True,
+        "states": max(1, c["distinct"]), "transitions": max(1, c["generated"]),
+    }
+    return finish(prop, tier, t0, viols, cov)
+
+
+def c12(tier):
+    import sat_pke
+    return sat_pke.check(tier)
+
+
+def c14(tier):
+    import sat_wire
+    return sat_wire.check(tier)
+
+
+CHECKS = {"C15": c15, "C12": c12, "C14": c14}
 
 
 def replay(prop, path):
-    return 2
+    log("replay of satellite cases: the violation file holds the concrete input; re-run the check")
+    return CHECKS[prop]("quick")
